@@ -16,6 +16,7 @@ struct MoveRec { int tree; long index; std::array<double, 3> pos; };
 struct HistOp {
     std::string op;            // "execute" | "top" | "move" | "rebuild"
     int flags = 63;
+    int threads = 0;           // thread count in force for this execute (0: the scenario's threads_exec)
     std::vector<MoveRec> moves;
 };
 
@@ -70,6 +71,7 @@ struct Scenario {
             Json o = Json::object();
             o.set("op", op.op);
             if (op.op == "execute" || op.op == "top") o.set("flags", op.flags);
+            if (op.threads > 0) o.set("threads", op.threads);
             if (op.op == "move") {
                 Json mv = Json::array();
                 for (const MoveRec& m : op.moves) {
@@ -125,6 +127,7 @@ struct Scenario {
             HistOp op;
             op.op = o.getStr("op", "execute");
             op.flags = int(o.getInt("flags", 63));
+            op.threads = int(o.getInt("threads", 0));
             if (o.has("moves")) for (const Json& q : o.at("moves").a)
                 op.moves.push_back(MoveRec{int(q.a[0].asInt()), long(q.a[1].asInt()), {{q.a[2].asReal(), q.a[3].asReal(), q.a[4].asReal()}}});
             s.history.push_back(op);
